@@ -23,6 +23,13 @@ pub enum CfgError {
     /// This error occurs when a return statement is used but can be reached by
     /// no labels.
     NoLabelForReturn(ParserNode),
+    /// This error occurs when a jump or branch names a label that no
+    /// instruction follows (a label at the end of the file, or in front of
+    /// data only).
+    LabelWithoutInstruction(LabelStringToken),
+    /// This error occurs when no return can be reached from the first
+    /// instruction of a function.
+    FunctionWithoutReturn(ParserNode, HashSet<LabelStringToken>),
     /// Unexpected error
     UnexpectedError,
     /// Assertion error
@@ -62,6 +69,12 @@ impl Display for CfgError {
             CfgError::NoLabelForReturn(_) => {
                 write!(f, "No label for return")
             }
+            CfgError::LabelWithoutInstruction(label) => {
+                write!(f, "Label without instruction: {label}")
+            }
+            CfgError::FunctionWithoutReturn(_, labels) => {
+                write!(f, "Function without return: {}", labels.as_str_list())
+            }
             CfgError::UnexpectedError => write!(f, "Unexpected error"),
             CfgError::AssertionError => write!(f, "Assertion error"),
         }
@@ -75,6 +88,8 @@ impl From<&CfgError> for SeverityLevel {
             | CfgError::DuplicateLabel(_)
             | CfgError::MultipleLabelsForReturn(_, _)
             | CfgError::NoLabelForReturn(_)
+            | CfgError::LabelWithoutInstruction(_)
+            | CfgError::FunctionWithoutReturn(_, _)
             | CfgError::UnexpectedError
             | CfgError::AssertionError => SeverityLevel::Error,
         }
@@ -84,33 +99,39 @@ impl From<&CfgError> for SeverityLevel {
 impl DiagnosticLocation for CfgError {
     fn file(&self) -> uuid::Uuid {
         match self {
-            CfgError::MultipleLabelsForReturn(node, _) | CfgError::NoLabelForReturn(node) => {
-                node.file()
-            }
+            CfgError::MultipleLabelsForReturn(node, _)
+            | CfgError::NoLabelForReturn(node)
+            | CfgError::FunctionWithoutReturn(node, _) => node.file(),
             CfgError::LabelsNotDefined(labels) => labels.iter().next().unwrap().file(),
-            CfgError::DuplicateLabel(label) => label.file(),
+            CfgError::DuplicateLabel(label) | CfgError::LabelWithoutInstruction(label) => {
+                label.file()
+            }
             CfgError::UnexpectedError | CfgError::AssertionError => uuid::Uuid::nil(),
         }
     }
 
     fn range(&self) -> crate::parser::Range {
         match self {
-            CfgError::MultipleLabelsForReturn(node, _) | CfgError::NoLabelForReturn(node) => {
-                node.range()
-            }
+            CfgError::MultipleLabelsForReturn(node, _)
+            | CfgError::NoLabelForReturn(node)
+            | CfgError::FunctionWithoutReturn(node, _) => node.range(),
             CfgError::LabelsNotDefined(labels) => labels.iter().next().unwrap().range(),
-            CfgError::DuplicateLabel(label) => label.range(),
+            CfgError::DuplicateLabel(label) | CfgError::LabelWithoutInstruction(label) => {
+                label.range()
+            }
             CfgError::UnexpectedError | CfgError::AssertionError => crate::parser::Range::default(),
         }
     }
 
     fn raw_text(&self) -> String {
         match self {
-            CfgError::MultipleLabelsForReturn(node, _) | CfgError::NoLabelForReturn(node) => {
-                node.raw_text()
-            }
+            CfgError::MultipleLabelsForReturn(node, _)
+            | CfgError::NoLabelForReturn(node)
+            | CfgError::FunctionWithoutReturn(node, _) => node.raw_text(),
             CfgError::LabelsNotDefined(labels) => labels.iter().next().unwrap().raw_text(),
-            CfgError::DuplicateLabel(label) => label.raw_text(),
+            CfgError::DuplicateLabel(label) | CfgError::LabelWithoutInstruction(label) => {
+                label.raw_text()
+            }
             CfgError::UnexpectedError | CfgError::AssertionError => String::new(),
         }
     }
@@ -158,6 +179,15 @@ impl DiagnosticMessage for CfgError {
                 A label is considered a function if it has been called by a [jal] instruction. This code might also be\
                 missing from your file or imports.
                 ".to_string(),
+            CfgError::LabelWithoutInstruction(label) => format!(
+                "The label {label} is the target of a jump or branch, but no instruction follows it. \
+                A label at the end of the file or in front of data only cannot be jumped to."
+            ),
+            CfgError::FunctionWithoutReturn(_, labels) => format!(
+                "The function {} is called, but no return instruction can be reached from its first instruction. \
+                Every function must be able to return to its caller.",
+                labels.as_str_list()
+            ),
             CfgError::UnexpectedError => "An unexpected error occurred. Please file a bug.".to_string(),
             CfgError::AssertionError => "An unexpected assertion error occurred. Please file a bug.".to_string(),
         }
